@@ -8,8 +8,12 @@ Model of `cocls::scheduler` (scheduler.h), one step per lock region.
   result is a permutation and a heap w.r.t. `compare_item`), hence for every tie-break among equal deadlines.
   The driver instantiates `H := stdHeap`, a transcription of libstdc++'s `__push_heap` / `__adjust_heap`, so that the
   model predicts the real header's choices exactly (also among equal deadlines and duplicate identifiers).
-* Worker threads (`worker_coro`) appear as `poll w now` (one loop iteration: `get_expired_lk(now)`, resolve or
-  `wait_until`) and `wake w`; `schedule` implements the `notify_all` rule.  Any number of workers.
+* Worker threads (`worker_coro`) appear as `poll w now` (the lock region of one loop iteration: stop check, clock read,
+  `get_expired_lk(now)`, then `lk.unlock()` in front of the resolution or `wait_until`) and `wake w`; `schedule`
+  implements the `notify_all` rule.  Any number of workers.  The promise a worker takes out is resolved with `_mx`
+  RELEASED (fix db0b685): an awaiter that is a callback runs inside `x()` on the worker's thread and its calls of
+  `schedule()` / `cancel()` / `remove()` are ordinary operations following the `poll` in the operation list; the lock
+  discipline itself is the lock program `workerIter` below (`workerIterAsIs`: the pinned code, which kept `_mx`).
 * Ghost: `log` (one record per completed sleep, never consulted by the steps).
 
 Time points and identifiers are natural numbers; `time_point::max()` is `none`.
@@ -279,6 +283,12 @@ inductive MOp where
   | unlock
   | removeLk (id : Nat)      -- body of `remove(id)` between its lock and unlock
   | resolve (exc : Nat)      -- `p(e)` on the promise `remove` returned, if any
+  | pollLk (w now : Nat)     -- `worker_coro` under `_mx`: stop check passed, `now()`, `get_expired_lk(now)` (= `Op.poll w now`)
+  | resolveExpired (cb : List Op)
+      -- `x()` / `pool->resume(x())` on the promise `get_expired_lk` handed out, if any.  The awaiter runs inside this
+      -- call, in this thread: a coroutine is only made ready (`cb = []`); a callback awaiter (`make_promise` callback,
+      -- `future_conv`, ...) may call the scheduler again: `cb` = the public calls it makes (each one starts with
+      -- `std::lock_guard _(_mx)`)
   deriving Repr, DecidableEq
 
 structure MState where
@@ -310,11 +320,44 @@ def runProg (H : Heap) : List MOp → MState → Option MState
       | some e => runProg H rest { m with s := { m.s with log := m.s.log ++ [mkDone e (Fate.cancelled exc) m.s.nextSerial] },
                                           got := none, result := some true }
       | none => runProg H rest { m with result := some false }
+  | MOp.pollLk w now :: rest, m =>
+      match step H m.s (Op.poll w now) with
+      | (s1, Res.expired e) => runProg H rest { m with s := s1, got := some e }
+      | (s1, _) => runProg H rest { m with s := s1, got := none }
+  | MOp.resolveExpired cb :: rest, m =>
+      match m.got with
+      | none => runProg H rest m
+      | some _ =>
+          -- the first public call of the awaiter locks `_mx`: never returns when this thread already owns it
+          if m.owner && !cb.isEmpty then none
+          else runProg H rest { m with s := run H m.s cb, got := none }
+
+/-! ## the worker's loop body as a lock program
+
+`worker_coro` after fix db0b685: `lk.lock(); if (stop_requested) break; now = now(); p = get_expired_lk(now);` then, for
+a promise, `lk.unlock(); x(); lk.lock();` and, for a time point, `_cond.wait_until(lk, x)` — which also is "release,
+(block), re-acquire" — then the loop condition and `lk.unlock()` at the top of the next round.  The lock regions are
+`[lock, pollLk, unlock]` and the trivial `[lock, unlock]`; the resolution lies between them, outside of any region. -/
+def workerIter (w now : Nat) (cb : List Op) : List MOp :=
+  [MOp.lock, MOp.pollLk w now, MOp.unlock, MOp.resolveExpired cb, MOp.lock, MOp.unlock]
+
+/-- the loop body as it was before /repo commit db0b685 ("fix: scheduler worker resolved expired promises while holding
+its mutex"): `x()` is called inside the lock region -/
+def workerIterAsIs (w now : Nat) (cb : List Op) : List MOp :=
+  [MOp.lock, MOp.pollLk w now, MOp.resolveExpired cb, MOp.unlock]
+
+/-- what one worker iteration does to the scheduler as a sequence of operations: the `poll` region and, when a promise
+was handed out, the public calls `cb` its awaiter makes while it is being resolved -/
+def afterIter (H : Heap) (s : State) (w now : Nat) (cb : List Op) : State :=
+  match step H s (Op.poll w now) with
+  | (s1, Res.expired _) => run H s1 cb
+  | (s1, _) => s1
 
 /-! ## a worker iteration split by an unlock/lock pair (kept for a witness)
 
-`worker_coro` holds `_mx` from its stop check through `get_expired_lk` until `wait_until` releases it atomically: one
-iteration is one lock region (`stepPoll`).  A variant that drops the mutex between computing the time point `x` and
+`worker_coro` holds `_mx` from its stop check through `get_expired_lk` until `wait_until` releases it atomically (or,
+when a promise was handed out, until the `lk.unlock()` in front of the resolution): that is one lock region
+(`stepPoll`).  A variant that drops the mutex between computing the time point `x` and
 `_cond.wait_until(lk, x)` (e.g. "do not call `pool->any_enqueued()` under `_mx`") is two regions: -/
 
 /-- first half: `get_expired_lk(now)` … `lk.unlock()`; the worker remembers the time point it got -/
@@ -342,6 +385,7 @@ inductive WPc where
   | locked    -- holds `_mx`, `if (state.stop_requested()) break;` passed
   | waiting   -- parked in `_cond.wait_until(lk, x)` (`_mx` released)
   | gap       -- (variant with a split iteration only) `_mx` dropped between the stop check and `wait_until`
+  | resolving -- `_mx` released by `lk.unlock()`, inside `x()`: resolving the promise `get_expired_lk` handed out (fix db0b685)
   | exited    -- left the loop: the worker coroutine finishes, `_glob_state->_fut` resolves
   deriving DecidableEq, Repr
 
@@ -357,7 +401,8 @@ structure St where
 
 inductive Act where
   | wLock          -- worker: `lk.lock(); if (state.stop_requested()) break;`
-  | wPollResolve   -- worker: `get_expired_lk` gave a promise: resolve it, next iteration (`lk.unlock()`)
+  | wPollResolve   -- worker: `get_expired_lk` gave a promise: `lk.unlock()`, then `x()` runs without the mutex
+  | wRelock        -- worker: `x()` returned: `lk.lock();`, loop condition `!state.stop_requested()`, `lk.unlock()`
   | wPollWait      -- worker: `get_expired_lk` gave a time point: `_cond.wait_until(lk, x)`
   | wTimeout       -- worker: the deadline of its wait passes (never, when the vector is empty: `time_point::max()`)
   | sFlag          -- stopper: `request_stop()` sets the stop state …
@@ -370,13 +415,24 @@ inductive Act where
 
 def wakeIfWaiting (w : WPc) : WPc := if w = WPc.waiting then WPc.idle else w
 
+/-- the steps of the thread that calls `request_stop()` -/
+def Act.isStopper : Act → Bool
+  | Act.sFlag | Act.sLock | Act.sNotify | Act.sUnlock => true
+  | _ => false
+
 def workerStep (s : St) (a : Act) : Option St :=
   match a with
   | Act.wLock =>
       if s.w = WPc.idle ∧ s.sp ≠ SPc.holding ∧ s.sp ≠ SPc.notified then
         some { s with w := if s.flag then WPc.exited else WPc.locked }
       else none
-  | Act.wPollResolve => if s.w = WPc.locked then some { s with w := WPc.idle } else none
+  | Act.wPollResolve => if s.w = WPc.locked then some { s with w := WPc.resolving } else none
+  | Act.wRelock =>
+      -- the stop request may have arrived while the promise was being resolved without the mutex: the loop condition
+      -- sees it; otherwise the worker is back at the loop top (`idle`) and its next `wLock` checks again
+      if s.w = WPc.resolving ∧ s.sp ≠ SPc.holding ∧ s.sp ≠ SPc.notified then
+        some { s with w := if s.flag then WPc.exited else WPc.idle }
+      else none
   | Act.wPollWait => if s.w = WPc.locked then some { s with w := WPc.waiting } else none
   | Act.wTimeout => if s.w = WPc.waiting then some { s with w := WPc.idle } else none
   | _ => none
